@@ -28,11 +28,18 @@ theorem run_append_ok {ns : NsMap} {st st' : St} {l1 : List Tok} (l2 : List Tok)
 theorem append_plain (ns : NsMap) (c : Cps) (r : List Cps) (el : Option Val) (b cc d : Nat) (wf : Bool)
     (rs : List Item) (e : Cps) (v : Val) (typ : Cps)
     (h1 : (typ == tyPREFIX) = false) (h2 : (typ == tyUniversal) = false) (h3 : endsWith typ sfxSelector = false)
-    (h4 : (typ == tyTypeSel) = false) :
+    (h4 : (typ == tyTypeSel) = false) (h5 : (typ == tyCOMMENT) = false) :
     append ns ⟨c :: r, el, none, b, cc, d, wf, rs, e⟩ v typ
       = .ok ⟨c :: r, el, none, b + incB c typ, cc + incC c typ v, d + incD c typ v, wf, ⟨v, typ⟩ :: rs, e⟩ := by
   cases v <;>
-    simp [append, top, h1, h2, h3, h4, takePrefix, needsNs, pushItem, bind, Except.bind, pure, Except.pure]
+    simp [append, top, h1, h2, h3, h4, h5, takePrefix, needsNs, pushItem, bind, Except.bind, pure, Except.pure]
+
+/-- a `COMMENT` item (selector.py:108-111): appended, nothing counted, a saved prefix stays -/
+theorem append_comment (ns : NsMap) (c : Cps) (r : List Cps) (el : Option Val) (pfx : Option Cps) (b cc d : Nat)
+    (wf : Bool) (rs : List Item) (e : Cps) (v : Val) :
+    append ns ⟨c :: r, el, pfx, b, cc, d, wf, rs, e⟩ v tyCOMMENT
+      = .ok ⟨c :: r, el, pfx, b, cc, d, wf, ⟨v, tyCOMMENT⟩ :: rs, e⟩ := by
+  simp [append, top, bind, Except.bind, pure, Except.pure]
 
 theorem incB_not (c typ : Cps) (h : (typ == tyId) = false) : incB c typ = 0 := by simp [incB, h]
 theorem incC_not (c typ : Cps) (v : Val) (h : (typ == tyClass) = false) (hv : v.isStr [91] = false) :
@@ -151,7 +158,7 @@ theorem step_comment (ns : NsMap) (c : Cps) (r : List Cps) (el : Option Val) (b 
     (rs : List Item) (e v : Cps) :
     step ns ⟨c :: r, el, none, b, cc, d, wf, rs, e⟩ ⟨.comment, v⟩
       = .ok ⟨c :: r, el, none, b, cc, d, wf, cmItem v :: rs, e⟩ := by
-  simp [step, runCb, cbCOMMENT, append_plain, incB, incC, incD, cmItem]
+  simp [step, runCb, cbCOMMENT, append_comment, cmItem]
 
 /-- white space that is ignored: inside `[ ]`, or where no combinator is expected -/
 theorem step_ws_quiet (ns : NsMap) (c : Cps) (r : List Cps) (el : Option Val) (b cc d : Nat) (wf : Bool)
@@ -280,12 +287,12 @@ theorem append_prefix (ns : NsMap) (c : Cps) (r : List Cps) (el : Option Val) (p
 theorem append_sel (ns : NsMap) (c : Cps) (r : List Cps) (el : Option Val) (pfx : Option Cps) (b cc d : Nat)
     (wf : Bool) (rs : List Item) (e name typ : Cps) (u : Uri) (hu : resolveNs ns pfx = some u)
     (h1 : (typ == tyPREFIX) = false) (h2 : endsWith typ sfxSelector = true) (h3 : (typ == tyAttrSel) = false)
-    (h4 : (typ == tyUniversal) = false) :
+    (h4 : (typ == tyUniversal) = false) (h5 : (typ == tyCOMMENT) = false) :
     append ns ⟨c :: r, el, pfx, b, cc, d, wf, rs, e⟩ (.str name) typ
       = .ok ⟨c :: r, (if c.isEmpty && (typ == tyTypeSel || typ == tyUniversal) then some (.ns u name) else el), none,
              b + incB c typ, cc + incC c typ (.ns u name), d + incD c typ (.ns u name), wf, ⟨.ns u name, typ⟩ :: rs, e⟩ := by
   cases pfx <;>
-    simp [append, top, h1, h2, h3, h4, takePrefix, needsNs, pushItem, hu, bind, Except.bind, pure, Except.pure]
+    simp [append, top, h1, h2, h3, h4, h5, takePrefix, needsNs, pushItem, hu, bind, Except.bind, pure, Except.pure]
 
 theorem splitOn_append (sep : Nat) (p q : Cps) (h : hasCp sep p = false) :
     splitOn sep (p ++ sep :: q) = p :: splitOn sep q := by
